@@ -1,5 +1,95 @@
-import XlVerif.Base
-/-! Driver for C14 (stub: replaced when the property's model is built). -/
+import XlVerif.Model.C14
+import XlVerif.Spec.C14
+import XlVerif.Drv.ValueWire
+/-!
+  Driver for C14: `C14 <FN> <arg>…` → `impl=<number|E:CODE|N:nonfinite|X:…>  spec=<number|E:VALUE|->`.
+
+  Arguments:
+    `s:<py>`     a scalar; `<py>` as in `ValueWire.pyOfWire?` (`n:I:5` native, `x:F:1/2` typed, …)
+    `a:<rows>`   an `Array` whose elements are the typed scalars given (rows `;`, cells `,`); short
+                 rows are padded by the model as the DataFrame constructor pads them
+    `r:<rows>`   a range of a compiled model: the typed values of its cells; goes through the model
+                 of `RangeNode.eval`
+    `l:<py>|…`   a Python list of scalars
+  `spec` is the fold over exactly the addressed values (all cells of `a:` / `r:`); `-` where the
+  statement demands nothing (mean / minimum / maximum of no numbers, no argument at all).
+-/
 namespace XlVerif.Drv.C14
-def handle (_fields : List String) : String := "error=not-implemented"
+open XlVerif XlVerif.Model.Value XlVerif.Model.C14 XlVerif.Drv.ValueWire
+
+def parseRows (body : String) : Option (List (List S)) :=
+  if body.isEmpty then some [] else
+    (body.splitOn ";").mapM fun (r : String) =>
+      if r.isEmpty then some [] else (r.splitOn ",").mapM S.ofWire?
+
+/-- the typed value a scalar spelling stands for (what the statement's fold sees) -/
+def specOfPy (v : Py) : Option S :=
+  match pyToS v with
+  | .ok s => some s
+  | _ => none
+
+/-- parse one argument into the model's and the statement's view of it -/
+def parseArg (w : String) : Option (Arg × List Spec.C14.A) :=
+  if w.startsWith "s:" then
+    (pyOfWire? (w.drop 2).toString).bind fun v =>
+      (specOfPy v).map fun s => (Arg.scalar v, [Spec.C14.A.scalar s])
+  else if w.startsWith "a:" then
+    (parseRows (w.drop 2).toString).map fun rows =>
+      (Arg.arr (rows.map fun r => r.map typedPy), [Spec.C14.A.range rows])
+  else if w.startsWith "r:" then
+    (parseRows (w.drop 2).toString).map fun rows => (rangeArray rows, [Spec.C14.A.range rows])
+  else if w.startsWith "l:" then
+    let body := (w.drop 2).toString
+    let items := if body.isEmpty then some [] else (body.splitOn "|").mapM pyOfWire?
+    items.bind fun vs =>
+      (vs.mapM specOfPy).map fun ss => (Arg.list (vs.map Arg.scalar), ss.map Spec.C14.A.scalar)
+  else none
+
+def vrWire : VR Num → String
+  | .ok n => (S.num n).wire
+  | .error (.xl c) => "E:" ++ c.wire
+  | .error .nonfinite => "N:nonfinite"
+  | .error (.py k) => "X:" ++ k.wire
+
+def ratW (q : Rat) : String := "F:" ++ ratWire q
+def optW : Option Rat → String
+  | some q => ratW q
+  | none => "-"
+
+/-- the rows SUMPRODUCT's reference semantics sees: a scalar is a 1×1 range -/
+def specRows : Spec.C14.A → List (List S)
+  | .scalar x => [[x]]
+  | .range rows => rows
+
+def handle (fields : List String) : String :=
+  match fields with
+  | fn :: rest =>
+    (match rest.mapM parseArg with
+     | none => "error=bad-args"
+     | some parsed =>
+       let args := parsed.map Prod.fst
+       let sas := (parsed.map Prod.snd).flatten
+       let cells := Spec.C14.addressed sas
+       let ext := Ext.none
+       let r : Option (VR Num × String) :=
+         match fn with
+         | "SUM" => some (SUM ext args, ratW (Spec.C14.sum cells))
+         | "AVERAGE" => some (AVERAGE ext args, optW (Spec.C14.mean cells))
+         | "MIN" => some (MIN ext args, optW (Spec.C14.minimum cells))
+         | "MAX" => some (MAX ext args, optW (Spec.C14.maximum cells))
+         | "COUNT" => some (COUNT args, s!"I:{Spec.C14.count cells}")
+         | "COUNTA" => some (COUNTA args, s!"I:{Spec.C14.counta cells}")
+         | "SUMPRODUCT" =>
+           some (SUMPRODUCT ext args,
+             match sas with
+             | [] => "-"
+             | _ => (match Spec.C14.sumproduct (sas.map specRows) with
+                     | some q => ratW q
+                     | none => "E:VALUE"))
+         | _ => none
+       match r with
+       | some (i, s) => kv [("impl", vrWire i), ("spec", s)]
+       | none => "error=bad-request")
+  | [] => "error=empty"
+
 end XlVerif.Drv.C14
